@@ -646,7 +646,6 @@ func ErrDerives(v ssa.Value, src ValPred) bool {
 	return rec(v)
 }
 
-
 // predicateImplies: the call cl of a boolean function of the same package returned val; the facts that hold inside the
 // callee on every return that can yield val (the conjuncts of `return a && b` for true, a guard's negation for an early
 // `return false`, ...). Only facts common to all such returns are reported (compared by value identity, so in practice
@@ -721,7 +720,6 @@ func predicateImplies(cl *ssa.Call, val bool, depth int) []BoolFact {
 	}
 	return out
 }
-
 
 var pkgCallersMemo = map[*ssa.Function][]ssa.Instruction{}
 
